@@ -157,6 +157,9 @@ class Prop(c09.Prop):
         return rf.enc_bpch(r), r, vars_
 
     def run_bpch(self, g):
+        # the memory-mapped reader, the master class (falls back to the block-walking reader) and the
+        # block-walking reader itself
+        ENTRIES = ('bpch1', 'bpch', 'bpch2')
         """every prefix of a binary punch file: an exception, or complete time blocks only, equal to the full file's"""
         import shutil
         from . import c18
@@ -200,16 +203,18 @@ class Prop(c09.Prop):
         try:
             # the memory-mapped reader itself, and the master class (which falls back to the block-walking reader
             # whenever the memory-mapped one raises)
-            for entry in ('bpch1', 'bpch'):
+            for entry in ENTRIES:
                 full[entry] = read(p, entry)
         except Exception as e:
             return result('full-file-unreadable', [], [h64(raw)], 1, None, h64(type(e).__name__))
         vs, outcomes, ntrans = [], {}, 0
-        for cut, entry in [(c, e) for c in range(g['hi'] - 1, g['lo'] - 1, -1) for e in ('bpch1', 'bpch')]:
+        for cut, entry in [(c, e) for c in range(g['hi'] - 1, g['lo'] - 1, -1) for e in ENTRIES]:
             fnt, fdata = full[entry]
             # variables along the time dimension (by name, not by a coincidence of lengths)
             keys = [k for k in sorted(fdata['__timed__']) if fdata[k] is not None]
-            if entry == 'bpch':
+            if entry == 'bpch2':
+                pass      # compared with the full file read by the same reader: every time variable counts
+            elif entry == 'bpch':
                 # the fall-back reader defines `time` as the begin of the block, the memory-mapped one as its mid
                 # point (DESIGN 7.4); both carry the block bounds tau0/tau1, which are compared
                 keys = [k for k in keys if k not in ('time', 'time_bounds')]
@@ -243,9 +248,15 @@ class Prop(c09.Prop):
                         continue
                     want = fdata[k][:nt_]
                     if got.shape[1:] == want.shape[1:] and got.shape[0] < nt_ and k not in data['__timed__']:
-                        # a tracer kept on a shorter time dimension of its own: the last step shown is incomplete
-                        problem = ('incomplete-step-exposed', '%s has %d of the %d time blocks shown' % (k, got.shape[0], nt_))
-                        break
+                        if entry == 'bpch2':
+                            # the block-walking reader is made for irregular files: a tracer with fewer complete
+                            # blocks gets a time dimension of its own; its blocks must still be the file's
+                            want = fdata[k][:got.shape[0]]
+                        else:
+                            # a tracer kept on a shorter time dimension of its own: the last step shown is incomplete
+                            problem = ('incomplete-step-exposed', '%s has %d of the %d time blocks shown'
+                                       % (k, got.shape[0], nt_))
+                            break
                     # (values, not bytes: the fall-back reader presents the same numbers in native byte order)
                     if got.shape != want.shape or not np.array_equal(got, want, equal_nan=got.dtype.kind == 'f'):
                         what = 'time-flags-differ' if k in ('tau0', 'tau1', 'time', 'time_bounds') else 'values-differ'
